@@ -3,7 +3,7 @@ src/lib/*, deterministic checkout scripts.  15 features, each a toggle."""
 FEATURES = ['libscript', 'clssetup', 'var', 'invars', 'lib2', 'reparam', 'provide', 'toolpath', 'srcmod', 'srcadd', 'define', 'defval', 'twovar', 'urlsrc', 'coscript']
 # features only C16 toggles (a third variant of lib; two recipes that produce identical packages); zero() includes them, the
 # other checks never set them
-EXTRA = ['threevar', 'twins']
+EXTRA = ['threevar', 'twins', 'toolscript']      # toolscript: only W7/C07 (content of the strong tool changes, its path does not)
 
 HELPERS = '''    reveal() {      # pure bash (process creation is the bottleneck of this sandbox)
         local d f line
